@@ -112,6 +112,261 @@ def asym_clb (Phi : K → K) (t shiftSB shiftB : K) : K :=
 def asym_cls (Phi : K → K) (t shiftSB shiftB : K) : K :=
   ((Phi (((-(t - shiftSB)) - (0.0 : K)) / (1.0 : K))) / (Phi (((-(t - shiftB)) - (0.0 : K)) / (1.0 : K))))
 
+/-- entry 0 (n_sigma = 2) of the expected clsb band, `AsymptoticCalculator.expected_pvalues` (source sha256 ab2634d9dd7f13e1…), base distribution 'normal' -/
+def asym_band_normal_clsb0 (Phi : K → K) (nanK sA : K) : K :=
+  (Phi (((-((2.0 : K) - (-sA))) - (0.0 : K)) / (1.0 : K)))
+
+/-- entry 1 (n_sigma = 1) of the expected clsb band, `AsymptoticCalculator.expected_pvalues` (source sha256 ab2634d9dd7f13e1…), base distribution 'normal' -/
+def asym_band_normal_clsb1 (Phi : K → K) (nanK sA : K) : K :=
+  (Phi (((-((1.0 : K) - (-sA))) - (0.0 : K)) / (1.0 : K)))
+
+/-- entry 2 (n_sigma = 0) of the expected clsb band, `AsymptoticCalculator.expected_pvalues` (source sha256 ab2634d9dd7f13e1…), base distribution 'normal' -/
+def asym_band_normal_clsb2 (Phi : K → K) (nanK sA : K) : K :=
+  (Phi (((-((0.0 : K) - (-sA))) - (0.0 : K)) / (1.0 : K)))
+
+/-- entry 3 (n_sigma = -1) of the expected clsb band, `AsymptoticCalculator.expected_pvalues` (source sha256 ab2634d9dd7f13e1…), base distribution 'normal' -/
+def asym_band_normal_clsb3 (Phi : K → K) (nanK sA : K) : K :=
+  (Phi (((-((-(1.0 : K)) - (-sA))) - (0.0 : K)) / (1.0 : K)))
+
+/-- entry 4 (n_sigma = -2) of the expected clsb band, `AsymptoticCalculator.expected_pvalues` (source sha256 ab2634d9dd7f13e1…), base distribution 'normal' -/
+def asym_band_normal_clsb4 (Phi : K → K) (nanK sA : K) : K :=
+  (Phi (((-((-(2.0 : K)) - (-sA))) - (0.0 : K)) / (1.0 : K)))
+
+/-- entry 0 (n_sigma = 2) of the expected clb band, `AsymptoticCalculator.expected_pvalues` (source sha256 ab2634d9dd7f13e1…), base distribution 'normal' -/
+def asym_band_normal_clb0 (Phi : K → K) (nanK sA : K) : K :=
+  (Phi (((-(2.0 : K)) - (0.0 : K)) / (1.0 : K)))
+
+/-- entry 1 (n_sigma = 1) of the expected clb band, `AsymptoticCalculator.expected_pvalues` (source sha256 ab2634d9dd7f13e1…), base distribution 'normal' -/
+def asym_band_normal_clb1 (Phi : K → K) (nanK sA : K) : K :=
+  (Phi (((-(1.0 : K)) - (0.0 : K)) / (1.0 : K)))
+
+/-- entry 2 (n_sigma = 0) of the expected clb band, `AsymptoticCalculator.expected_pvalues` (source sha256 ab2634d9dd7f13e1…), base distribution 'normal' -/
+def asym_band_normal_clb2 (Phi : K → K) (nanK sA : K) : K :=
+  (Phi (((-(0.0 : K)) - (0.0 : K)) / (1.0 : K)))
+
+/-- entry 3 (n_sigma = -1) of the expected clb band, `AsymptoticCalculator.expected_pvalues` (source sha256 ab2634d9dd7f13e1…), base distribution 'normal' -/
+def asym_band_normal_clb3 (Phi : K → K) (nanK sA : K) : K :=
+  (Phi (((1.0 : K) - (0.0 : K)) / (1.0 : K)))
+
+/-- entry 4 (n_sigma = -2) of the expected clb band, `AsymptoticCalculator.expected_pvalues` (source sha256 ab2634d9dd7f13e1…), base distribution 'normal' -/
+def asym_band_normal_clb4 (Phi : K → K) (nanK sA : K) : K :=
+  (Phi (((2.0 : K) - (0.0 : K)) / (1.0 : K)))
+
+/-- entry 0 (n_sigma = 2) of the expected cls band, `AsymptoticCalculator.expected_pvalues` (source sha256 ab2634d9dd7f13e1…), base distribution 'normal' -/
+def asym_band_normal_cls0 (Phi : K → K) (nanK sA : K) : K :=
+  ((Phi (((-((2.0 : K) - (-sA))) - (0.0 : K)) / (1.0 : K))) / (Phi (((-(2.0 : K)) - (0.0 : K)) / (1.0 : K))))
+
+/-- entry 1 (n_sigma = 1) of the expected cls band, `AsymptoticCalculator.expected_pvalues` (source sha256 ab2634d9dd7f13e1…), base distribution 'normal' -/
+def asym_band_normal_cls1 (Phi : K → K) (nanK sA : K) : K :=
+  ((Phi (((-((1.0 : K) - (-sA))) - (0.0 : K)) / (1.0 : K))) / (Phi (((-(1.0 : K)) - (0.0 : K)) / (1.0 : K))))
+
+/-- entry 2 (n_sigma = 0) of the expected cls band, `AsymptoticCalculator.expected_pvalues` (source sha256 ab2634d9dd7f13e1…), base distribution 'normal' -/
+def asym_band_normal_cls2 (Phi : K → K) (nanK sA : K) : K :=
+  ((Phi (((-((0.0 : K) - (-sA))) - (0.0 : K)) / (1.0 : K))) / (Phi (((-(0.0 : K)) - (0.0 : K)) / (1.0 : K))))
+
+/-- entry 3 (n_sigma = -1) of the expected cls band, `AsymptoticCalculator.expected_pvalues` (source sha256 ab2634d9dd7f13e1…), base distribution 'normal' -/
+def asym_band_normal_cls3 (Phi : K → K) (nanK sA : K) : K :=
+  ((Phi (((-((-(1.0 : K)) - (-sA))) - (0.0 : K)) / (1.0 : K))) / (Phi (((1.0 : K) - (0.0 : K)) / (1.0 : K))))
+
+/-- entry 4 (n_sigma = -2) of the expected cls band, `AsymptoticCalculator.expected_pvalues` (source sha256 ab2634d9dd7f13e1…), base distribution 'normal' -/
+def asym_band_normal_cls4 (Phi : K → K) (nanK sA : K) : K :=
+  ((Phi (((-((-(2.0 : K)) - (-sA))) - (0.0 : K)) / (1.0 : K))) / (Phi (((2.0 : K) - (0.0 : K)) / (1.0 : K))))
+
+/-- entry 0 (n_sigma = 2) of the expected clsb band, `AsymptoticCalculator.expected_pvalues` (source sha256 ab2634d9dd7f13e1…), base distribution 'clipped_normal', √q_A > 0 -/
+def asym_band_clipped_clsb0 (Phi : K → K) (nanK sA : K) : K :=
+  if (-sA) < (2.0 : K) then
+    if (-sA) ≤ (2.0 : K) then
+      (Phi (((-((2.0 : K) - (-sA))) - (0.0 : K)) / (1.0 : K)))
+    else
+      nanK
+  else
+    if (-sA) ≤ (-sA) then
+      (Phi (((-((-sA) - (-sA))) - (0.0 : K)) / (1.0 : K)))
+    else
+      nanK
+
+/-- entry 1 (n_sigma = 1) of the expected clsb band, `AsymptoticCalculator.expected_pvalues` (source sha256 ab2634d9dd7f13e1…), base distribution 'clipped_normal', √q_A > 0 -/
+def asym_band_clipped_clsb1 (Phi : K → K) (nanK sA : K) : K :=
+  if (-sA) < (1.0 : K) then
+    if (-sA) ≤ (1.0 : K) then
+      (Phi (((-((1.0 : K) - (-sA))) - (0.0 : K)) / (1.0 : K)))
+    else
+      nanK
+  else
+    if (-sA) ≤ (-sA) then
+      (Phi (((-((-sA) - (-sA))) - (0.0 : K)) / (1.0 : K)))
+    else
+      nanK
+
+/-- entry 2 (n_sigma = 0) of the expected clsb band, `AsymptoticCalculator.expected_pvalues` (source sha256 ab2634d9dd7f13e1…), base distribution 'clipped_normal', √q_A > 0 -/
+def asym_band_clipped_clsb2 (Phi : K → K) (nanK sA : K) : K :=
+  if (-sA) < (0.0 : K) then
+    if (-sA) ≤ (0.0 : K) then
+      (Phi (((-((0.0 : K) - (-sA))) - (0.0 : K)) / (1.0 : K)))
+    else
+      nanK
+  else
+    if (-sA) ≤ (-sA) then
+      (Phi (((-((-sA) - (-sA))) - (0.0 : K)) / (1.0 : K)))
+    else
+      nanK
+
+/-- entry 3 (n_sigma = -1) of the expected clsb band, `AsymptoticCalculator.expected_pvalues` (source sha256 ab2634d9dd7f13e1…), base distribution 'clipped_normal', √q_A > 0 -/
+def asym_band_clipped_clsb3 (Phi : K → K) (nanK sA : K) : K :=
+  if (-sA) < (-(1.0 : K)) then
+    if (-sA) ≤ (-(1.0 : K)) then
+      (Phi (((-((-(1.0 : K)) - (-sA))) - (0.0 : K)) / (1.0 : K)))
+    else
+      nanK
+  else
+    if (-sA) ≤ (-sA) then
+      (Phi (((-((-sA) - (-sA))) - (0.0 : K)) / (1.0 : K)))
+    else
+      nanK
+
+/-- entry 4 (n_sigma = -2) of the expected clsb band, `AsymptoticCalculator.expected_pvalues` (source sha256 ab2634d9dd7f13e1…), base distribution 'clipped_normal', √q_A > 0 -/
+def asym_band_clipped_clsb4 (Phi : K → K) (nanK sA : K) : K :=
+  if (-sA) < (-(2.0 : K)) then
+    if (-sA) ≤ (-(2.0 : K)) then
+      (Phi (((-((-(2.0 : K)) - (-sA))) - (0.0 : K)) / (1.0 : K)))
+    else
+      nanK
+  else
+    if (-sA) ≤ (-sA) then
+      (Phi (((-((-sA) - (-sA))) - (0.0 : K)) / (1.0 : K)))
+    else
+      nanK
+
+/-- entry 0 (n_sigma = 2) of the expected clb band, `AsymptoticCalculator.expected_pvalues` (source sha256 ab2634d9dd7f13e1…), base distribution 'clipped_normal', √q_A > 0 -/
+def asym_band_clipped_clb0 (Phi : K → K) (nanK sA : K) : K :=
+  if (-sA) < (2.0 : K) then
+    if (-sA) ≤ (2.0 : K) then
+      (Phi (((-(2.0 : K)) - (0.0 : K)) / (1.0 : K)))
+    else
+      nanK
+  else
+    if (-sA) ≤ (-sA) then
+      (Phi (((-((-sA) - (0.0 : K))) - (0.0 : K)) / (1.0 : K)))
+    else
+      nanK
+
+/-- entry 1 (n_sigma = 1) of the expected clb band, `AsymptoticCalculator.expected_pvalues` (source sha256 ab2634d9dd7f13e1…), base distribution 'clipped_normal', √q_A > 0 -/
+def asym_band_clipped_clb1 (Phi : K → K) (nanK sA : K) : K :=
+  if (-sA) < (1.0 : K) then
+    if (-sA) ≤ (1.0 : K) then
+      (Phi (((-(1.0 : K)) - (0.0 : K)) / (1.0 : K)))
+    else
+      nanK
+  else
+    if (-sA) ≤ (-sA) then
+      (Phi (((-((-sA) - (0.0 : K))) - (0.0 : K)) / (1.0 : K)))
+    else
+      nanK
+
+/-- entry 2 (n_sigma = 0) of the expected clb band, `AsymptoticCalculator.expected_pvalues` (source sha256 ab2634d9dd7f13e1…), base distribution 'clipped_normal', √q_A > 0 -/
+def asym_band_clipped_clb2 (Phi : K → K) (nanK sA : K) : K :=
+  if (-sA) < (0.0 : K) then
+    if (-sA) ≤ (0.0 : K) then
+      (Phi (((-(0.0 : K)) - (0.0 : K)) / (1.0 : K)))
+    else
+      nanK
+  else
+    if (-sA) ≤ (-sA) then
+      (Phi (((-((-sA) - (0.0 : K))) - (0.0 : K)) / (1.0 : K)))
+    else
+      nanK
+
+/-- entry 3 (n_sigma = -1) of the expected clb band, `AsymptoticCalculator.expected_pvalues` (source sha256 ab2634d9dd7f13e1…), base distribution 'clipped_normal', √q_A > 0 -/
+def asym_band_clipped_clb3 (Phi : K → K) (nanK sA : K) : K :=
+  if (-sA) < (-(1.0 : K)) then
+    if (-sA) ≤ (-(1.0 : K)) then
+      (Phi (((1.0 : K) - (0.0 : K)) / (1.0 : K)))
+    else
+      nanK
+  else
+    if (-sA) ≤ (-sA) then
+      (Phi (((-((-sA) - (0.0 : K))) - (0.0 : K)) / (1.0 : K)))
+    else
+      nanK
+
+/-- entry 4 (n_sigma = -2) of the expected clb band, `AsymptoticCalculator.expected_pvalues` (source sha256 ab2634d9dd7f13e1…), base distribution 'clipped_normal', √q_A > 0 -/
+def asym_band_clipped_clb4 (Phi : K → K) (nanK sA : K) : K :=
+  if (-sA) < (-(2.0 : K)) then
+    if (-sA) ≤ (-(2.0 : K)) then
+      (Phi (((2.0 : K) - (0.0 : K)) / (1.0 : K)))
+    else
+      nanK
+  else
+    if (-sA) ≤ (-sA) then
+      (Phi (((-((-sA) - (0.0 : K))) - (0.0 : K)) / (1.0 : K)))
+    else
+      nanK
+
+/-- entry 0 (n_sigma = 2) of the expected cls band, `AsymptoticCalculator.expected_pvalues` (source sha256 ab2634d9dd7f13e1…), base distribution 'clipped_normal', √q_A > 0 -/
+def asym_band_clipped_cls0 (Phi : K → K) (nanK sA : K) : K :=
+  if (-sA) < (2.0 : K) then
+    if (-sA) ≤ (2.0 : K) then
+      ((Phi (((-((2.0 : K) - (-sA))) - (0.0 : K)) / (1.0 : K))) / (Phi (((-(2.0 : K)) - (0.0 : K)) / (1.0 : K))))
+    else
+      nanK
+  else
+    if (-sA) ≤ (-sA) then
+      ((Phi (((-((-sA) - (-sA))) - (0.0 : K)) / (1.0 : K))) / (Phi (((-((-sA) - (0.0 : K))) - (0.0 : K)) / (1.0 : K))))
+    else
+      nanK
+
+/-- entry 1 (n_sigma = 1) of the expected cls band, `AsymptoticCalculator.expected_pvalues` (source sha256 ab2634d9dd7f13e1…), base distribution 'clipped_normal', √q_A > 0 -/
+def asym_band_clipped_cls1 (Phi : K → K) (nanK sA : K) : K :=
+  if (-sA) < (1.0 : K) then
+    if (-sA) ≤ (1.0 : K) then
+      ((Phi (((-((1.0 : K) - (-sA))) - (0.0 : K)) / (1.0 : K))) / (Phi (((-(1.0 : K)) - (0.0 : K)) / (1.0 : K))))
+    else
+      nanK
+  else
+    if (-sA) ≤ (-sA) then
+      ((Phi (((-((-sA) - (-sA))) - (0.0 : K)) / (1.0 : K))) / (Phi (((-((-sA) - (0.0 : K))) - (0.0 : K)) / (1.0 : K))))
+    else
+      nanK
+
+/-- entry 2 (n_sigma = 0) of the expected cls band, `AsymptoticCalculator.expected_pvalues` (source sha256 ab2634d9dd7f13e1…), base distribution 'clipped_normal', √q_A > 0 -/
+def asym_band_clipped_cls2 (Phi : K → K) (nanK sA : K) : K :=
+  if (-sA) < (0.0 : K) then
+    if (-sA) ≤ (0.0 : K) then
+      ((Phi (((-((0.0 : K) - (-sA))) - (0.0 : K)) / (1.0 : K))) / (Phi (((-(0.0 : K)) - (0.0 : K)) / (1.0 : K))))
+    else
+      nanK
+  else
+    if (-sA) ≤ (-sA) then
+      ((Phi (((-((-sA) - (-sA))) - (0.0 : K)) / (1.0 : K))) / (Phi (((-((-sA) - (0.0 : K))) - (0.0 : K)) / (1.0 : K))))
+    else
+      nanK
+
+/-- entry 3 (n_sigma = -1) of the expected cls band, `AsymptoticCalculator.expected_pvalues` (source sha256 ab2634d9dd7f13e1…), base distribution 'clipped_normal', √q_A > 0 -/
+def asym_band_clipped_cls3 (Phi : K → K) (nanK sA : K) : K :=
+  if (-sA) < (-(1.0 : K)) then
+    if (-sA) ≤ (-(1.0 : K)) then
+      ((Phi (((-((-(1.0 : K)) - (-sA))) - (0.0 : K)) / (1.0 : K))) / (Phi (((1.0 : K) - (0.0 : K)) / (1.0 : K))))
+    else
+      nanK
+  else
+    if (-sA) ≤ (-sA) then
+      ((Phi (((-((-sA) - (-sA))) - (0.0 : K)) / (1.0 : K))) / (Phi (((-((-sA) - (0.0 : K))) - (0.0 : K)) / (1.0 : K))))
+    else
+      nanK
+
+/-- entry 4 (n_sigma = -2) of the expected cls band, `AsymptoticCalculator.expected_pvalues` (source sha256 ab2634d9dd7f13e1…), base distribution 'clipped_normal', √q_A > 0 -/
+def asym_band_clipped_cls4 (Phi : K → K) (nanK sA : K) : K :=
+  if (-sA) < (-(2.0 : K)) then
+    if (-sA) ≤ (-(2.0 : K)) then
+      ((Phi (((-((-(2.0 : K)) - (-sA))) - (0.0 : K)) / (1.0 : K))) / (Phi (((2.0 : K) - (0.0 : K)) / (1.0 : K))))
+    else
+      nanK
+  else
+    if (-sA) ≤ (-sA) then
+      ((Phi (((-((-sA) - (-sA))) - (0.0 : K)) / (1.0 : K))) / (Phi (((-((-sA) - (0.0 : K))) - (0.0 : K)) / (1.0 : K))))
+    else
+      nanK
+
 /-- `infer/__init__.py::hypotest` (source sha256 472d23221d578cb9…): the returned pieces, each as the list of the calculator quantities it
 holds, for every combination of the four `return_*` flags and q0 / not q0 (obtained by running `hypotest` with a symbolic calculator) -/
 def hypotest_returns (tailProbs expected expectedSet calculator isQ0 : Bool) : List (List String) :=
